@@ -51,29 +51,29 @@ mod sp_weighted__ser;
 mod longest_capped__to;
 mod set_reach__mrt;
 mod set_reach__srcpar;
-mod cp__topar;
-mod bool_lat__par;
-mod lat_multi_improve__to;
-mod count_paths__to;
-mod count_paths__redecl;
-mod neg_basic__topar;
-mod neg_basic__init;
-mod neg_basic__exppar;
-mod agg_depth__topar;
-mod agg_user__pari;
-mod agg_bound_mix__pari;
-mod agg_empty_rel__pari;
-mod disj__ser;
-mod disj__src0;
-mod disj__perm2;
-mod disj_nested__exp;
-mod rep_expr__par;
-mod multi_head_disj__exppar;
-mod mac_basic__pari;
-mod mac_basic__src2;
-mod mac_capture__par;
-mod mac_nested__exppar;
-mod mac_disj__pari;
+mod cp__pari;
+mod lex_lat__pari;
+mod lat_multi_improve__par;
+mod count_paths__par;
+mod count_paths__src1;
+mod neg_basic__pari;
+mod neg_basic__src2;
+mod neg_basic__permpar;
+mod agg_depth__pari;
+mod agg_user__ser;
+mod agg_bound_mix__ser;
+mod agg_empty_rel__ser;
+mod agg_const_args__exp;
+mod disj__mrt;
+mod disj__srcpar;
+mod disj_nested__par;
+mod pat_args__exppar;
+mod multi_head_disj__pari;
+mod mac_basic__ser;
+mod mac_basic__src0;
+mod mac_basic__exppar;
+mod mac_nested__pari;
+mod mac_disj__ser;
 
 fn lookup(name: &str) -> fn() -> Box<dyn Driven> {
    match name {
@@ -120,29 +120,29 @@ fn lookup(name: &str) -> fn() -> Box<dyn Driven> {
       "longest_capped__to" => longest_capped__to::make,
       "set_reach__mrt" => set_reach__mrt::make,
       "set_reach__srcpar" => set_reach__srcpar::make,
-      "cp__topar" => cp__topar::make,
-      "bool_lat__par" => bool_lat__par::make,
-      "lat_multi_improve__to" => lat_multi_improve__to::make,
-      "count_paths__to" => count_paths__to::make,
-      "count_paths__redecl" => count_paths__redecl::make,
-      "neg_basic__topar" => neg_basic__topar::make,
-      "neg_basic__init" => neg_basic__init::make,
-      "neg_basic__exppar" => neg_basic__exppar::make,
-      "agg_depth__topar" => agg_depth__topar::make,
-      "agg_user__pari" => agg_user__pari::make,
-      "agg_bound_mix__pari" => agg_bound_mix__pari::make,
-      "agg_empty_rel__pari" => agg_empty_rel__pari::make,
-      "disj__ser" => disj__ser::make,
-      "disj__src0" => disj__src0::make,
-      "disj__perm2" => disj__perm2::make,
-      "disj_nested__exp" => disj_nested__exp::make,
-      "rep_expr__par" => rep_expr__par::make,
-      "multi_head_disj__exppar" => multi_head_disj__exppar::make,
-      "mac_basic__pari" => mac_basic__pari::make,
-      "mac_basic__src2" => mac_basic__src2::make,
-      "mac_capture__par" => mac_capture__par::make,
-      "mac_nested__exppar" => mac_nested__exppar::make,
-      "mac_disj__pari" => mac_disj__pari::make,
+      "cp__pari" => cp__pari::make,
+      "lex_lat__pari" => lex_lat__pari::make,
+      "lat_multi_improve__par" => lat_multi_improve__par::make,
+      "count_paths__par" => count_paths__par::make,
+      "count_paths__src1" => count_paths__src1::make,
+      "neg_basic__pari" => neg_basic__pari::make,
+      "neg_basic__src2" => neg_basic__src2::make,
+      "neg_basic__permpar" => neg_basic__permpar::make,
+      "agg_depth__pari" => agg_depth__pari::make,
+      "agg_user__ser" => agg_user__ser::make,
+      "agg_bound_mix__ser" => agg_bound_mix__ser::make,
+      "agg_empty_rel__ser" => agg_empty_rel__ser::make,
+      "agg_const_args__exp" => agg_const_args__exp::make,
+      "disj__mrt" => disj__mrt::make,
+      "disj__srcpar" => disj__srcpar::make,
+      "disj_nested__par" => disj_nested__par::make,
+      "pat_args__exppar" => pat_args__exppar::make,
+      "multi_head_disj__pari" => multi_head_disj__pari::make,
+      "mac_basic__ser" => mac_basic__ser::make,
+      "mac_basic__src0" => mac_basic__src0::make,
+      "mac_basic__exppar" => mac_basic__exppar::make,
+      "mac_nested__pari" => mac_nested__pari::make,
+      "mac_disj__ser" => mac_disj__ser::make,
       _ => panic!("no such program variant in this shard: {}", name),
    }
 }
